@@ -19,7 +19,7 @@ META = {
              "4 orders x 2 windows x 2 backends; identities evaluated on every bin; non-trivial: bins with XX and YY above 1e6x "
              "their rounding tolerance"),
     "exhaustive": True,
-    "bounds": {"quick": "N=8, x = s+[1,-2] for every s in {-2,0,1}^6; partners 8; plans (ltf,.5,J3,K2),(vectorized_ltf,0,J5,K1,Lmin2),(lpsd,.75,J4,K3); orders -1..2; windows hann,kaiser60; numba+numpy",
+    "bounds": {"quick": "N=8, x = s+[1,-2] for every s in {-2,0,1}^6 (every 27th also scaled by 1e-100, 1e-30, 1e30, 1e100); partners 8; plans (ltf,.5,J3,K2),(vectorized_ltf,0,J5,K1,Lmin2),(lpsd,.75,J4,K3); orders -1..2; windows hann,kaiser60; numba+numpy",
                "thorough": "x over all of {-2,0,1}^8"},
     "assumptions": ["bounds carry the derived rounding tolerance of the estimates (see C01); exact-arithmetic identities are demanded to 1e-9 relative"],
 }
@@ -45,22 +45,29 @@ def shards(tier, seed):
     for ci in range(nchunk):
         for backend in ("numba", "numpy"):
             out.append({"n": n, "lo": ci * M // nchunk, "hi": (ci + 1) * M // nchunk, "backend": backend})
+    # the same identities for records in extreme units (every 27th record of the alphabet)
+    for scale in (1e-100, 1e-30, 1e30, 1e100):
+        for backend in ("numba", "numpy"):
+            out.append({"n": 6, "lo": 0, "hi": 729, "backend": backend, "scale": scale, "stride": 27})
     return out
 
 
 def run_shard(shard):
+    import warnings
+    warnings.simplefilter("ignore")
     ana.quiet()
     if "case" in shard:
         c = shard["case"]
-        return _pair(np.asarray(c["x"], float), c["partner"], c["plan"], c["order"], c["win"], c["backend"])
+        return _pair(np.asarray(c["x"], float), c["partner"], c["plan"], c["order"], c["win"], c["backend"], c.get("scale", 1.0))
     n, backend = shard["n"], shard["backend"]
     alln = records.sigma_all(n)[shard["lo"]:shard["hi"]]
     out = {"evals": 0, "nontrivial": 0, "failures": [], "samples": [], "extra": {"bins_coh1_checked": 0, "bins_complex_XY": 0}}
     seen = set()
-    for s in alln:
+    scale = shard.get("scale", 1.0)
+    for s in alln[::shard.get("stride", 1)]:
         x = s if n == 8 else np.concatenate([s, [1.0, -2.0]])
         for pn, pi, order, win in itertools.product(PARTNERS, range(len(PLANS)), (-1, 0, 1, 2), ("hann", "kaiser60")):
-            r = _pair(x, pn, pi, order, win, backend)
+            r = _pair(x, pn, pi, order, win, backend, scale)
             out["evals"] += r["evals"]
             out["nontrivial"] += r["nontrivial"]
             for k in ("bins_coh1_checked", "bins_complex_XY"):
@@ -78,12 +85,14 @@ def replay(case):
     return run_shard({"case": case})["failures"]
 
 
-def _pair(x, pn, pi, order, win, backend):
+def _pair(x, pn, pi, order, win, backend, scale=1.0):
     fs = 1.0
-    y = partner(pn, x)
+    y = partner(pn, x) * scale
+    x0 = x
+    x = x * scale
     wkw, wref = ana.win_spec(win)
     kw = dict(order=order, backend=backend, **PLANS[pi], **wkw)
-    case = {"x": x.tolist(), "partner": pn, "plan": pi, "order": order, "win": win, "backend": backend}
+    case = {"x": x0.tolist(), "partner": pn, "plan": pi, "order": order, "win": win, "backend": backend, "scale": scale}
     out = {"evals": 0, "nontrivial": 0, "failures": [], "extra": {"bins_coh1_checked": 0, "bins_complex_XY": 0}}
 
     def add(tag, msg):
@@ -117,10 +126,12 @@ def _pair(x, pn, pi, order, win, backend):
         out["nontrivial"] += int(big)
         if not (np.isfinite(coh[j]) and -1e-12 <= coh[j] <= 1 + 1e-12):
             add("coh-range", f"bin {j}: coh={coh[j]!r} outside [0,1]")
-        if not (abs(Gxy[j]) ** 2 <= Gxx[j] * Gyy[j] * (1 + 1e-12) + 1e-300):
+        with np.errstate(all="ignore"):
+            schw = (abs(Gxy[j]) / np.sqrt(Gxx[j])) <= np.sqrt(Gyy[j]) * (1 + 1e-12) + 1e-300 if Gxx[j] > 0 else abs(Gxy[j]) == 0
+        if not schw:
             add("schwarz", f"bin {j}: |Gxy|^2={abs(Gxy[j]) ** 2!r} > Gxx*Gyy={Gxx[j] * Gyy[j]!r}")
         if big:
-            tcoh = 2 * (2 * tol[2]) / max(abs(XY), 1e-300) + tol[0] / XX + tol[1] / YY if abs(XY) > 0 else 1.0
+            tcoh = (2 * (2 * tol[2]) / abs(XY) + tol[0] / XX + tol[1] / YY) if abs(XY) > 0 else 1.0
             if (int(pf["K"][j]) == 1 or dependent) and tcoh < 1e-3:
                 out["extra"]["bins_coh1_checked"] += 1
                 if not (abs(coh[j] - 1) <= 4 * tcoh + 1e-9):
@@ -131,8 +142,10 @@ def _pair(x, pn, pi, order, win, backend):
             add("swap-auto", f"bin {j}: swapped Gxx/Gyy {rs.Gxx[j]!r}/{rs.Gyy[j]!r} vs Gyy/Gxx {Gyy[j]!r}/{Gxx[j]!r}")
         if not (abs(rs.Gxy[j] - np.conj(Gxy[j])) <= 8 * tden[2] + 1e-13 * abs(Gxy[j])):
             add("swap-cross", f"bin {j}: swapped Gxy={rs.Gxy[j]!r} vs conj(Gxy)={np.conj(Gxy[j])!r}")
-        if big and not (abs(rs.coh[j] - coh[j]) <= 1e-9 + 8 * (tol[0] / XX + tol[1] / YY + 2 * tol[2] / max(abs(XY), 1e-300)) * coh[j]):
-            add("swap-coh", f"bin {j}: swapped coh={rs.coh[j]!r} vs {coh[j]!r}")
+        if big and rs.coh[j] != coh[j]:
+            relc = 8 * (tol[0] / XX + tol[1] / YY + (2 * tol[2] / abs(XY) if abs(XY) > 0 else 0.0))
+            if np.isfinite(relc) and not (abs(rs.coh[j] - coh[j]) <= 1e-9 + relc * coh[j]):
+                add("swap-coh", f"bin {j}: swapped coh={rs.coh[j]!r} vs {coh[j]!r}")
         # auto alone vs as part of a pair
         if not (abs(ra.Gxx[j] - Gxx[j]) <= 4 * tden[0] + 1e-13 * abs(Gxx[j])) or ra.f[j] != r.f[j]:
             add("auto-vs-pair", f"bin {j}: Gxx alone={ra.Gxx[j]!r} vs in pair={Gxx[j]!r}")
@@ -144,7 +157,7 @@ def _pair(x, pn, pi, order, win, backend):
         if big:
             want = Gyy[j] * (1 - coh[j])
             # GyySx is a difference of O(Gyy) terms: tolerance relative to Gyy
-            tS = (1e-9 + 8 * (tol[0] / XX + tol[1] / YY + 2 * tol[2] / max(abs(XY), 1e-300))) * abs(Gyy[j])
-            if not (abs(GyySx[j] - want) <= tS):
+            tS = (1e-9 + 8 * (tol[0] / XX + tol[1] / YY + (2 * tol[2] / abs(XY) if abs(XY) > 0 else 0.0))) * abs(Gyy[j])
+            if np.isfinite(tS) and not (abs(GyySx[j] - want) <= tS):
                 add("GyySx", f"bin {j}: GyySx={GyySx[j]!r} != Gyy*(1-coh)={want!r} (XY={XY!r}, tol {tS:.2e})")
     return out
